@@ -3,7 +3,8 @@ CONFIG = dict(
     props=["DhcpProofs.Props.C13"],
     facts=["DhcpProofs.Facts.Lease", "DhcpProofs.Facts.V4Build"],
     streams=[("lease4", 8000, 270000), ("lease6", 6000, 180000)],
-    oracles=[("c13", 12000, 360000), ("c10m", 200, 200)],
+    oracles=[("c13", 12000, 360000), ("c10m", 200, 200), ("c10", 600, 6000)],
+    oracle_class_filter={"c10": ["waiting-datagram-lost", "acceptable-datagram-missed"]},
     full_statement_proved=False,
     missing=("The exchange theorems are stated over an ABSTRACT call sendAndRead stream match = first element of the "
              "routed stream the matcher accepts (none = no-response error). That this call IS the timed SendAndRead machine "
